@@ -59,7 +59,10 @@ def run(prop, tier, replay=None):
     if replay:
         with open(replay) as f:
             body = json.load(f)
-        chosen = [{"sc": body["replay"]["scenario"], "predict": None}]
+        scn = body["replay"]["scenario"]
+        for fld, dflt in (("dirarg", False), ("compat", False)):      # replay files written before a field existed
+            scn.setdefault(fld, dflt)
+        chosen = [{"sc": scn, "predict": None}]
         states = trans = 0
     else:
         cfg = _cfg(work, "MC.cfg", prop, "INVARIANTS TypeOK InvC05 InvC14 InvC15 InvC20 Emit")
